@@ -1,16 +1,59 @@
 (* Free theorems: the NumI run of each GMRF / integrated-prior term encloses its NumR value. *)
-From Coq Require Import QArith Reals List.
+From Coq Require Import QArith Reals List Lra.
 From Param Require Import Param.
+From Interval Require Import Specific_bigint Specific_ops Float_full Interval Xreal Basic Float.
 From TT Require Import Num NumR NumI ParamI Tree M_gmrf.
 
 Parametricity Recursive qvariant qualified.
+Parametricity Recursive ln2pi_of qualified.
 Parametricity Recursive gmrf_q qualified.
 Parametricity Recursive precision_matrix_q qualified.
 Parametricity Recursive gmrf_integrated_q qualified.
 Parametricity Recursive quad_published_q qualified.
-Parametricity Recursive const_integrated_value qualified.
-Parametricity Recursive gamma_logpdf qualified.
-Parametricity Recursive invgamma_logpdf qualified.
-Parametricity Recursive const_value qualified.
-Print TT_o_M_gmrf_o_qvariant_R.
-Check TT_o_M_gmrf_o_gmrf_q_R.
+
+Notation qvariant_R := TT_o_M_gmrf_o_qvariant_R.
+
+Lemma qlist_refl' (l : list Q) : list_R Q Q Q_R l l.
+Proof. apply list_R_refl, Q_R_refl. Qed.
+Lemma qvariant_refl v : qvariant_R v v.
+Proof. destruct v; constructor; try apply qlist_refl'; apply bool_R_refl. Qed.
+
+(* the value of ln(2 pi) used by the interval runs *)
+Definition ln2pi_I : I.type := ln2pi_of NumI (I.pi prec).
+Lemma ln2pi_enclosed : rel (ln (2 * PI)) ln2pi_I.
+Proof.
+  assert (H : rel (ln2pi_of NumR PI) ln2pi_I).
+  { exact (TT_o_M_gmrf_o_ln2pi_of_R R I.type rel NumR NumI NumRI_R PI (I.pi prec) (I.pi_correct prec)). }
+  unfold ln2pi_of in H at 1. cbn [nln mul NumR] in H. unfold two in H. cbn [ofQ NumR] in H.
+  replace (Q2R (2 # 1)) with 2%R in H by (unfold Q2R; simpl; lra). exact H.
+Qed.
+
+Lemma gmrf_enclosed l L v x tau :
+  rel l L -> rel (gmrf_q NumR l v x tau) (gmrf_q NumI L v x tau).
+Proof.
+  intros Hl.
+  exact (TT_o_M_gmrf_o_gmrf_q_R R I.type rel NumR NumI NumRI_R l L Hl v v (qvariant_refl v)
+           x x (qlist_refl' x) tau tau (Q_R_refl tau)).
+Qed.
+Lemma precision_matrix_enclosed v tau n :
+  list_R R I.type rel (precision_matrix_q NumR v tau n) (precision_matrix_q NumI v tau n).
+Proof.
+  exact (TT_o_M_gmrf_o_precision_matrix_q_R R I.type rel NumR NumI NumRI_R v v (qvariant_refl v)
+           tau tau (Q_R_refl tau) n n (nat_R_refl n)).
+Qed.
+Lemma quad_published_enclosed v x tau :
+  rel (quad_published_q NumR v x tau) (quad_published_q NumI v x tau).
+Proof.
+  exact (TT_o_M_gmrf_o_quad_published_q_R R I.type rel NumR NumI NumRI_R v v (qvariant_refl v)
+           x x (qlist_refl' x) tau tau (Q_R_refl tau)).
+Qed.
+Lemma gmrf_integrated_enclosed l L alpha beta ga Ga ga' Ga' v x :
+  rel l L -> rel ga Ga -> rel ga' Ga' ->
+  rel (gmrf_integrated_q NumR l alpha beta ga ga' v x) (gmrf_integrated_q NumI L alpha beta Ga Ga' v x).
+Proof.
+  intros Hl Ha Ha'.
+  exact (TT_o_M_gmrf_o_gmrf_integrated_q_R R I.type rel NumR NumI NumRI_R l L Hl
+           alpha alpha (Q_R_refl _) beta beta (Q_R_refl _) ga Ga Ha ga' Ga' Ha'
+           v v (qvariant_refl v) x x (qlist_refl' x)).
+Qed.
+Print Assumptions gmrf_integrated_enclosed.
